@@ -1,6 +1,10 @@
 (* C10 driver: one case per line, see props/c10.py for the grammar.
-     <id> G|R|J <nv> <pathspec>*nv <no> <pathspec>*no <op>...     op: a <pathspec> <hex> | r <pathspec> | d <pathspec>
-     <id> P <sephex> <assignhex> <op>...                           op: set <str> <len> | next | last | del | add <n> | post <hex> | bin
+     <id> G|H|R|X|J <nv> <pathspec>*nv <no> <pathspec>*no <op>...
+          op: a <pathspec> <hex> | r <pathspec> | d <pathspec> | z <pathspec> | l <pathspec> | n <pathspec> | k <pathspec>
+              | env <sephex> <patternhex> <hex,hex,...>
+     <id> P|Q <sephex> <assignhex> <op>...
+          op: set <str> <len> | next | last | del | add <n> | post <hex> | bin | clr | cp | asg | fork
+     <id> T
    pathspec = <handle>:<sephex>:<str>, str = "~" (NULL) | "-" (empty) | hex.
    Prints "M <id> tok..." (mechanism model) and "S <id> tok..." (specification). *)
 let cksum l =
@@ -19,8 +23,13 @@ let str_of_tok s = if s = "~" then None else Some (bytes_of_hex s)
 let byte_of_hex s = n_of_int (int_of_string ("0x" ^ s))
 (* handle, sep, string *)
 let parse_spec t = match String.split_on_char ':' t with
-  | [h; sep; s] -> (int_of_string h, byte_of_hex sep, str_of_tok s)
+  | [h; sep; s] | [h; sep; s; _] -> (int_of_string h, byte_of_hex sep, str_of_tok s)
   | _ -> failwith ("bad pathspec " ^ t)
+(* optional 4th field: the end character of mpt_config_set (kind G, operations a / r) *)
+let spec_end t = match String.split_on_char ':' t with
+  | [_; _; _; en] -> byte_of_hex en
+  | _ -> N0
+let mkpath_end (s, sep, en) = match str_path s sep en with Done p -> Some p | _ -> None
 let mkpath_of (s, sep) = match str_path s sep N0 with Done p -> Some p | _ -> None
 let rec dump_nodes f =
   if f = [] then "0" else String.concat "," (List.map (fun (Node (n, v, k)) ->
@@ -38,6 +47,37 @@ let show_obs o = match o with OutEntry e -> show_entry e | OutFault -> "F" | Out
 
 let rec split_n k l = if k = 0 then ([], l) else match l with x :: r -> let (a, b) = split_n (k - 1) r in (x :: a, b) | [] -> failwith "short case"
 
+(* value accessors: raw result classes (mpt_config_getp, config::get(path, type, ptr)) or the
+   bool wrappers get<T>, which cannot tell MissingData from BadType *)
+let show_gval coll = function
+  | GMissing -> if coll then "f" else "n"
+  | GBadType -> if coll then "f" else "t"
+  | GFound -> "y"
+  | GText v -> "V" ^ venc v
+let show_listing dump = function
+  | None -> "LA"
+  | Some (v, kids) -> "L" ^ (match v with None -> "!" | Some v -> "=" ^ venc v) ^ "(" ^ dump kids ^ ")"
+                      ^ (if kids = [] then ";s0" else ";s-7")      (* a refusing item callback stops the walk *)
+
+(* the glob patterns the generator uses: literal bytes, '*' and '?' *)
+let glob_match pat str =
+  let np = String.length pat and ns = String.length str in
+  let rec go i j =
+    if i = np then j = ns
+    else if pat.[i] = '*' then (go (i + 1) j || (j < ns && go i (j + 1)))
+    else j < ns && (pat.[i] = '?' || pat.[i] = str.[j]) && go (i + 1) (j + 1) in
+  go 0 0
+let string_of_bytes l = String.concat "" (List.map (fun b -> String.make 1 (Char.chr (int_of_n b))) l)
+let bytes_of_string s = List.init (String.length s) (fun i -> n_of_int (Char.code s.[i]))
+
+(* metatype side of a configuration handle (op k): what the C says, see config_global.c:
+   conversion to type 0 without / with target, the type list { TypeConfigPtr = 0x85, TypeNodePtr = 9 },
+   addref (the global one is static: 1, a view is not shared: 0), clone (a view gives a new
+   view, the global one has no base path to clone from: NULL), query(NULL) hands out the
+   metatype itself, query(NULL) without handler, assign(NULL, ..) BadArgument, an unknown
+   conversion BadType *)
+let handle_facts h = if h = 0 then "K133.0.8509.1.~.1.0.-1.-3" else "K133.0.8509.0.c.1.0.-1.-3"
+
 let run_store kind id toks =
   let nv, toks = match toks with n :: r -> int_of_string n, r | [] -> failwith "nv" in
   let vs, toks = split_n nv toks in
@@ -48,49 +88,198 @@ let run_store kind id toks =
   let empty_path = path_init N0 N0 in
   let base_path h = if h = 0 then Some empty_path else let (_, sep, s) = views.(h - 1) in mkpath_of (s, sep) in
   let base_key h = if h = 0 then [] else let (_, sep, s) = views.(h - 1) in str_key s sep in
+  let tree = (kind = 'G' || kind = 'H') in        (* the process-global node tree; otherwise item slots *)
+  let cxx = (kind = 'R' || kind = 'X') in   (* values made by the C++ metatype::create *)
+  let coll = (kind = 'H' || kind = 'X') in        (* bool wrappers *)
   let g = ref [] and a = ref [] and hist = ref [] in
   let mt = Buffer.create 256 and st = Buffer.create 256 in
-  let mstep_store o = match kind with
-    | 'G' -> (match o with
-        | `A (h, p, v) -> (match base_path h with Some b -> let (g', out) = cstep !g (CAssign (b, p, v)) in g := g'; out | None -> OutFault)
-        | `R (h, p) -> (match base_path h with Some b -> let (g', out) = cstep !g (CRemove (b, p)) in g := g'; out | None -> OutFault)
-        | `D (h, p) -> OutFault
-        | `Q (h, p) -> (match base_path h with Some b -> snd (cstep !g (CQuery (b, p))) | None -> OutFault))
-    | _ -> (let r = match o with
-        | `A (_, p, v) -> RAssign (p, v) | `R (_, p) -> RRemove p | `D (_, p) -> RDrop p | `Q (_, p) -> RQuery p in
-        let (a', out) = rstep !a r in a := a'; out) in
+  let wdo o = let (g', out) = wstep !g o in g := g'; out in
+  let xdo o = let (a', out) = xstep !a o in a := a'; out in
+  let wc = function WOut c -> c | _ -> OutFault in
+  let xc = function XOut c -> c | _ -> OutFault in
+  let wv0 c = function WVal v -> show_gval c v | WOut OutFault -> "F" | WOut OutFuel -> "U" | _ -> "?" in
+  let xv0 c = function XVal v -> show_gval c v | XOut OutFault -> "F" | XOut OutFuel -> "U" | _ -> "?" in
+  let wv = wv0 coll and xv = xv0 coll in
+  let dot = n_of_int 0x2e in
   let observe () =
-    let mo = List.map (fun (h, sep, s) -> match mkpath_of (s, sep) with
-      | Some p -> show_obs (mstep_store (`Q (h, p))) | None -> "F") obs in
-    let so = List.map (fun (h, sep, s) -> show_obs (snd (sstep !hist (HQuery (base_key h, str_key s sep)) true))) obs in
-    (String.concat "," mo, String.concat "," so) in
+    let one (h, sep, s) =
+      match mkpath_of (s, sep), base_path h with
+      | Some p, Some b ->
+        if kind = 'J' then (show_obs (snd (rstep !a (RQuery p))))
+        else if tree then
+          String.concat "/" ([ show_obs (wc (wdo (WVt (CQuery (b, p))))); wv0 false (wdo (WGetp (b, p, GExist)));
+                               wv (wdo (WGetp (b, p, GVec))); wv (wdo (WGetp (b, p, GStr))) ]
+                             @ (if sep = dot then [ wv (wdo (WGet (b, s, GStr))) ] else []))
+        else
+          String.concat "/" ([ show_obs (xc (xdo (XVt (RQuery p)))); xv0 false (xdo (XGetp (p, GExist)));
+                               xv (xdo (XGetp (p, GVec))); xv (xdo (XGetp (p, GStr))) ]
+                             @ (if sep = dot && kind = 'X' then
+                                  [ match mkpath_of (s, dot) with Some q -> xv (xdo (XGetp (q, GStr))) | None -> "F" ] else []))
+      | _ -> "F" in
+    let sone (h, sep, s) =
+      let e = (match snd (sstep !hist (HQuery (base_key h, str_key s sep)) true) with OutEntry e -> e | _ -> Absent) in
+      if kind = 'J' then show_entry e
+      else
+        let gv ty = show_gval coll (get_view cxx ty e) in
+        String.concat "/" ([ show_entry e; show_gval false (get_view cxx GExist e); gv GVec; gv GStr ]
+                           @ (if sep = dot && kind <> 'R' then [ gv GStr ] else [])) in
+    (String.concat "," (List.map one obs), String.concat "," (List.map sone obs)) in
   let emit rcm rcs =
     let (mo, so) = observe () in
-    let dump = if kind = 'G' then dump_nodes !g else dump_items !a in
+    let dump = if tree then dump_nodes !g else dump_items !a in
     Buffer.add_string mt (Printf.sprintf " %s|1|%s|%s" rcm mo dump);
     Buffer.add_string st (Printf.sprintf " %s|1|%s" rcs so) in
+  let bad () = Buffer.add_string mt " F"; Buffer.add_string st " F" in
+  (* one assignment / removal on the model, the way this kind of case calls it *)
+  let m_assign ?(en = N0) h s sep p v = match base_path h with
+    | None -> OutFault
+    | Some b ->
+      if tree then wc (wdo (WSet (b, s, sep, en, Some v)))
+      else if kind = 'X' then xc (xdo (XSet (s, sep, Some v)))
+      else xc (xdo (XVt (RAssign (p, v)))) in
+  let m_remove ?(en = N0) h s sep p = match base_path h with
+    | None -> OutFault
+    | Some b ->
+      if tree then wc (wdo (WSet (b, s, sep, en, None)))
+      else if kind = 'X' then xc (xdo (XSet (s, sep, None)))
+      else xc (xdo (XVt (RRemove p))) in
+  let s_assign ?(en = N0) h s sep v out =
+    let (h', sout) = sstep !hist (HAssign (base_key h, str_key_end s sep en, v)) (match out with OutRc RcOk -> true | _ -> false) in
+    hist := h'; sout in
   let rec go = function
     | [] -> ()
     | "a" :: ps :: v :: r ->
       let (h, sep, s) = parse_spec ps in
+      let en = spec_end ps in
       let v = bytes_of_hex v in
-      (match mkpath_of (s, sep) with
-       | None -> Buffer.add_string mt " F"; Buffer.add_string st " F"
+      (match mkpath_end (s, sep, en) with
+       | None -> bad ()
        | Some p ->
-         let out = mstep_store (`A (h, p, v)) in
-         let (h', sout) = sstep !hist (HAssign (base_key h, str_key s sep, v)) (match out with OutRc RcOk -> true | _ -> false) in
-         hist := h';
+         let out = m_assign ~en h s sep p v in
+         let sout = s_assign ~en h s sep v out in
          emit (show_rc `A out) (show_rc `A sout));
       go r
-    | (("r" | "d") as k) :: ps :: r ->
+    | "r" :: ps :: r ->
       let (h, sep, s) = parse_spec ps in
-      (match mkpath_of (s, sep) with
-       | None -> Buffer.add_string mt " F"; Buffer.add_string st " F"
+      let en = spec_end ps in
+      (match mkpath_end (s, sep, en) with
+       | None -> bad ()
        | Some p ->
-         let out = mstep_store (if k = "r" then `R (h, p) else `D (h, p)) in
-         let (h', sout) = sstep !hist (HRemove (base_key h, str_key s sep)) true in
+         let out = m_remove ~en h s sep p in
+         let (h', sout) = sstep !hist (HRemove (base_key h, str_key_end s sep en)) true in
          hist := h';
-         emit (show_rc `R out) (show_rc `R sout));
+         if kind = 'H' then emit (match out with OutRc RcRefused -> "vr0" | OutRc _ -> "vr1" | OutFault -> "F" | _ -> "U") "vr"
+         else emit (show_rc `R out) (show_rc `R sout));
+      go r
+    | "d" :: ps :: r ->
+      let (h, sep, s) = parse_spec ps in
+      (match mkpath_of (s, sep), base_path h with
+       | Some p, Some b ->
+         if kind = 'J' then begin
+           let out = xc (xdo (XVt (RDrop p))) in
+           let (h', sout) = sstep !hist (HRemove (base_key h, str_key s sep)) true in
+           hist := h';
+           emit (show_rc `R out) (show_rc `R sout)
+         end else begin
+           (* config::del(str, sep, len): the harness passes -1, the full length or one byte less,
+              by string length *)
+           let n = match s with Some b -> List.length b | None -> 0 in
+           let len = if n mod 3 = 0 then None else if n mod 3 = 1 then Some (nat_of_int n) else Some (nat_of_int (n - 1)) in
+           let out = if tree then wc (wdo (WDel (b, s, sep, len))) else xc (xdo (XDel (s, sep, len))) in
+           let (h', _) = sstep !hist (HRemove (base_key h, del_key s sep len)) true in
+           hist := h';
+           let t = match out with OutFault -> "F" | OutFuel -> "U" | _ -> "vd" in
+           emit t "vd"
+         end
+       | _ -> bad ());
+      go r
+    | "z" :: ps :: r ->
+      let (_, sep, s) = parse_spec ps in
+      (match mkpath_of (s, sep) with
+       | None -> bad ()
+       | Some p ->
+         let out = xc (xdo (XUnset p)) in
+         let (h', sout) = xsstep !hist (XHUnset (str_key s sep)) true in
+         hist := h';
+         emit (show_rc `A out) (show_rc `A (xc sout)));
+      go r
+    | "l" :: ps :: r ->
+      let (h, sep, s) = parse_spec ps in
+      (match mkpath_of (s, sep), base_path h with
+       | Some p, Some b ->
+         if tree then begin
+           let m = match wdo (WList (b, p)) with WListing l -> show_listing dump_nodes l | WOut OutFault -> "F" | _ -> "U" in
+           let e = squery !hist (base_key h) (str_key s sep) in
+           emit m (if e = Absent then "LA" else "LP")
+         end else begin
+           let top = (s = None) in
+           let m = match xdo (XList (if top then None else Some p)) with
+             | XListing l -> show_listing dump_items l | XOut OutFault -> "F" | _ -> "U" in
+           let e = match snd (xsstep !hist (XHList (if top then None else Some (str_key s sep))) true) with
+             | XOut (OutEntry e) -> e | _ -> Absent in
+           emit m (if e = Absent then "LA" else "LP")
+         end
+       | _ -> bad ());
+      go r
+    | "n" :: ps :: r ->
+      let (h, _, _) = parse_spec ps in
+      (match base_path h with
+       | None -> bad ()
+       | Some b ->
+         let m = match wdo (WNode b) with
+           | WNodeAt (Some t) ->
+             (match node_at !g t with
+              | Some (Node (n, v, _)) -> "Ny:" ^ venc n ^ (match v with None -> "!" | Some v -> "=" ^ venc v)
+              | None -> "F")
+           | WNodeAt None -> "N-2"
+           | WOut OutFault -> "F" | _ -> "U" in
+         let (h', sout) = wsstep !hist (HTouch (base_key h)) true in
+         hist := h';
+         emit m (match sout with WNodeAt (Some _) -> "Ny" | _ -> "N-2"));
+      go r
+    | "y" :: ps :: r ->
+      let (h, _, _) = parse_spec ps in
+      (match base_path h with
+       | None -> bad ()
+       | Some b ->
+         let out = wc (wdo (WUnset b)) in
+         let (h', _) = wsstep !hist (HUnsetBase (base_key h)) true in
+         hist := h';
+         emit (match out with OutRc RcRefused -> "y-4" | OutRc _ -> "y0" | OutFault -> "F" | _ -> "U") "y");
+      go r
+    | "k" :: ps :: r ->
+      let (h, _, _) = parse_spec ps in
+      emit (handle_facts h) (handle_facts h);
+      go r
+    | "env" :: sep :: pat :: ents :: r ->
+      (* config::environ(pattern, sep, env): every "NAME=value" whose lower-cased name matches the
+         pattern is assigned at the path the name spells with the separator, in order; stops at
+         the first refused assignment *)
+      let sep = byte_of_hex sep in
+      let sep = if sep = N0 then n_of_int 0x5f else sep in
+      let pat = string_of_bytes (bytes_of_hex pat) in
+      let ents = List.map (fun t -> string_of_bytes (bytes_of_hex t)) (String.split_on_char ',' ents) in
+      let accept = ref 0 and stop = ref false and fault = ref false in
+      List.iter (fun e ->
+        if not !stop then
+          match String.index_opt e '=' with
+          | None -> ()
+          | Some k ->
+            if k + 1 >= 1024 then () else
+            let name = String.lowercase_ascii (String.sub e 0 k) in
+            if glob_match pat name then begin
+              incr accept;
+              let v = bytes_of_string (String.sub e (k + 1) (String.length e - k - 1)) in
+              let s = Some (bytes_of_string name) in
+              match mkpath_of (s, sep) with
+              | None -> fault := true; stop := true
+              | Some p ->
+                let out = if tree then wc (wdo (WVt (CAssign (empty_path, p, v)))) else xc (xdo (XVt (RAssign (p, v)))) in
+                let _ = s_assign 0 s sep v out in
+                (match out with OutRc RcOk -> () | OutRc _ -> accept := - !accept; stop := true | _ -> fault := true; stop := true)
+            end) ents;
+      let t = if !fault then "F" else Printf.sprintf "n%d" !accept in
+      emit t t;
       go r
     | t :: _ -> failwith ("bad op " ^ t) in
   go toks;
@@ -105,7 +294,8 @@ let show_walk = function
   | _ -> "F"
 let rec drop k l = if k <= 0 then l else match l with [] -> [] | _ :: r -> drop (k - 1) r
 
-let run_path id toks =
+let run_path cxx id toks =
+  let forked = ref false in
   match toks with
   | sep :: asg :: ops ->
     let sep = byte_of_hex sep and asg = byte_of_hex asg in
@@ -124,9 +314,10 @@ let run_path id toks =
       let cnt = if isset then show_ret r else "0" in
       let rs = if isset then (match r with RNum _ -> "s" | x -> show_ret x) else show_ret r in
       let ars = if isset then (match ar with RNum _ -> "s" | x -> show_ret x) else show_ret ar in
-      Buffer.add_string mt (Printf.sprintf " %s|%d.%d.%d.%d.%s|%s|%s|%s" rs off len (int_of_nat q.pfirst) flags cnt
-                              (enc 48 body) (enc 48 post) (show_walk (pwalk q)));
-      Buffer.add_string st (Printf.sprintf " %s|%s" ars (show_walk (Done !a.aelems))) in
+      let o = if !forked then ";o1" else "" in
+      Buffer.add_string mt (Printf.sprintf " %s|%d.%d.%d.%d.%s|%s|%s|%s%s" rs off len (int_of_nat q.pfirst) flags cnt
+                              (enc 48 body) (enc 48 post) (show_walk (pwalk q)) o);
+      Buffer.add_string st (Printf.sprintf " %s|%s%s" ars (show_walk (Done !a.aelems)) o) in
     let rec go = function
       | [] -> ()
       | "set" :: s :: l :: r ->
@@ -138,6 +329,10 @@ let run_path id toks =
       | "add" :: n :: r -> step (PAdd (nat_of_int (int_of_string n))) false; go r
       | "post" :: d :: r -> step (PPost (bytes_of_hex d)) false; go r
       | "bin" :: r -> step PBin false; go r
+      | "clr" :: r -> step (PClear false) false; go r        (* mpt_path_invalidate *)
+      | "clrx" :: r -> step (PClear true) false; go r       (* array content cut only (content::set_length) *)
+      | ("cp" | "asg") :: r -> step PCopy false; go r
+      | "fork" :: r -> forked := true; step PCopy false; go r
       | t :: _ -> failwith ("bad op " ^ t) in
     go ops;
     Printf.printf "M %s%s\nS %s%s\n" id (Buffer.contents mt) id (Buffer.contents st)
@@ -147,6 +342,8 @@ let () =
   let ic = open_in Sys.argv.(1) in
   List.iter (fun line ->
     match split_ws line with
-    | id :: ("P" | "Q") :: r -> run_path id r
-    | id :: k :: r when k = "G" || k = "R" || k = "J" -> run_store k.[0] id r
+    | id :: "P" :: r -> run_path false id r
+    | id :: "Q" :: r -> run_path true id r
+    | id :: "T" :: _ -> Printf.printf "M %s config.133.1\nS %s config.133.1\n" id id
+    | id :: k :: r when k = "G" || k = "R" || k = "J" || k = "H" || k = "X" -> run_store k.[0] id r
     | _ -> ()) (read_lines ic)
